@@ -72,6 +72,25 @@ func vExternalProducts(from, to int) {
 		c.Eval.ExternalProduct(ct2, gsw, ct2)
 		c.Dec.Decrypt(ct2, got)
 		vAssertNoiseFree(rQ, got.Value, want, true, 22, tag+"-in-place-external-product-decrypts-to-m-times-g")
+		// the RGSW plaintext given in the other representations (coefficient domain and / or Montgomery form)
+		// (not on the case of the known finding F23: its external product overflows whatever the plaintext representation)
+		for v := 1; v < 4 && cs.name != "32bit-path-29bit-prime-narrow-digits"; v++ {
+			gv := rlwe.NewPlaintext(params, cs.levelQ)
+			gv.Value.Copy(g.Value)
+			gv.IsNTT, gv.IsMontgomery = v&1 == 0, v&2 != 0
+			if !gv.IsNTT {
+				rQ.INTT(gv.Value, gv.Value)
+			}
+			if gv.IsMontgomery {
+				rQ.MForm(gv.Value, gv.Value)
+			}
+			name := tag + []string{"", "-coefficient-domain", "-montgomery", "-coefficient-domain-montgomery"}[v] + "-RGSW-plaintext"
+			gswv := NewCiphertext(params, cs.levelQ, cs.levelP, cs.w)
+			vAssert(c.Enc.Encrypt(gv, gswv) == nil, name+"-RGSW-encrypt-no-error")
+			c.Eval.ExternalProduct(ct, gswv, out)
+			c.Dec.Decrypt(out, got)
+			vAssertNoiseFree(rQ, got.Value, want, true, 22, name+"-external-product-decrypts-to-m-times-g")
+		}
 	}
 }
 
